@@ -236,6 +236,11 @@ def g1(ctx):
                       "%s recurses with receiver %s and argument %s" % (name, role_str(r0), role_str(r1)), where_of(b, c.bb))
         # base case: identity test x == y on all pairs
         base = base_tests_identity(b)
+        # no shortcut to `true`: membership is only ever affirmed by the identity test at the bottom of the chain
+        if name == "contains":
+            trues = [d for d in b.defs().get(0, []) if d["kind"] == "assign" and C.const_bool(d["rv"]) is True]
+            ctx.check(not trues, "sift-no-shortcut:" + name, "contains() answers true only through the identity test at the end of the sifting",
+                      "Group::contains has a path that answers `true` without sifting the permutation down to the identity (e.g. 'the orbit of the base point is everything'): a transitive group is not the full symmetric group, so permutations that are not symmetries are reported as members and eq() equates invocations it must not", where_of(b, trues[0]["bb"]) if trues else where_of(b))
         ctx.check(bool(base), "sift-base:" + name, "%s's base case tests that the remaining permutation is the identity" % name,
                   "%s has lost its identity test in the base case (every permutation is a member of the trivial group)" % name, where_of(b))
 
